@@ -64,7 +64,7 @@ CHECKS: dict[str, dict] = {
             {"engine": "e2_train", "label": "train_equiv", "profile": {"mode": "train_equiv"}, "n_runs": 160 if tier == "quick" else 4000, "budget_s": 230 if tier == "quick" else 2400},
         ],
         "rule": (
-            "seeded training life-cycles of the real ml.train on real equivariant models (ConvBlock/ResNet/UNet/DilResNet; unsorted signatures with pseudo-types; all bias modes; "
+            "seeded training life-cycles of the real ml.train on real equivariant models (ConvBlock/ResNet/UNet/DilResNet, and in a tenth of the runs a conventional network inside GroupAverage with inference=True; unsorted signatures with pseudo-types; all bias modes; "
             "norm, activation, pre-activation, torus flag; d in {2,3}) with real optax optimisers (sgd, adam, adamw+decay, large learning rates), 1-3 segments of 1-20 epochs, "
             "1-2 devices, smse / per-timestep / normalised loss; faults: crash at a drawn seam call (clock, optimiser update, get_batches, wandb, checkpoint write), torn checkpoints, "
             "crash inside the k-th raw write of a checkpoint, restart with ml.load (short reads) into a fresh twin or from scratch, optimiser/device/batch change across restarts, "
